@@ -87,6 +87,12 @@ def opWSEQ (args obs : List String) : Option DecOut :=
            | none => []) ++
           -- no live session: sends fail
           (if isSend && res == "ok" && acc.st.session.isNone then ["C17 send without a session succeeded"] else []) ++
+          -- … and a session whose connection has been closed (by the peer's closure, normal or not, or by a failure)
+          -- is not live either
+          (if isSend && res == "ok" && (match acc.st.session with
+               | some i => (acc.st.conns[i]?).map (·.closed) == some true
+               | none => false) then
+             ["C17 send succeeded on a session whose connection is closed (the peer closed it or the reader ended): sends without a live session must fail"] else []) ++
           (if opName == "CON" && acc.st.session.isSome && (res == "ok" || st'.conns.length != acc.st.conns.length) then
              ["C17 Connect on an active session did not fail without dialing"] else []) ++
           -- a successful Reconnect clears the sticky error: a healthy send right after it succeeds
